@@ -268,17 +268,21 @@ Definition effective_ropt (client_ops request_ops : list rop) : option ropt :=
 Inductive outcome :=
 | OErr (e : Z) (cancelled : bool)     (* transport error; cancelled = errors.Is(err, context.Canceled)
                                          || r.Context().Err() != nil (cancelled, or past its deadline) *)
-| OStatus (s : Z).
+| OStatus (s : Z)
+| OStatusEnded (s : Z).               (* the response arrived without error, but r.Context().Err() != nil
+                                         when the loop looks at it (context cancelled / past its deadline
+                                         after the response came in, e.g. from a response middleware) *)
 
 Definition view_of (o : outcome) : view :=
   match o with
   | OErr e _ => mkView None (Some e)
   | OStatus s => mkView (Some s) None
+  | OStatusEnded s => mkView (Some s) None
   end.
 Definition is_cancelled (o : outcome) : bool :=
-  match o with OErr _ c => c | OStatus _ => false end.
+  match o with OErr _ c => c | OStatus _ => false | OStatusEnded _ => true end.
 Definition is_err (o : outcome) : bool :=
-  match o with OErr _ _ => true | OStatus _ => false end.
+  match o with OErr _ _ => true | OStatus _ => false | OStatusEnded _ => false end.
 
 (* one attempt's inputs: transport outcome and what each request-level after-response
    middleware returns on this attempt (registration order) *)
